@@ -47,14 +47,29 @@ def lmpdat_projection(model, style, rounded=True):
     return m
 
 
-def save_lmpdat(ctx, fs, real, via, style, name, prefix, fault=None):
+def path_arg(path, pathkind):
+    """How the caller spells a path: plain string, pathlib.Path, or (odd_ext) a name whose extension says nothing, in
+    which case the documented explicit filetype is passed along."""
+    if pathkind == "pathlib":
+        import pathlib
+        return pathlib.Path(path)
+    return path
+
+
+def save_lmpdat(ctx, fs, real, via, style, name, prefix, fault=None, pathkind="std"):
     """Write `real` with the real writer through the chosen branch.  Returns the durable text."""
-    path = "/sim/%s.lmpdat" % name
+    path = "/sim/%s.lmpdat" % name if pathkind != "odd_ext" else "/sim/%s.lmpdat.%s" % (name, ("bak", "cif", "0", "data")[len(name) % 4])
     wscript = fault or {}
     if via == "path":
         fs.script = dict(fs.script, write=wscript)
-        real.save(path, atom_format=style)
-        fs.script = dict(fs.script, write={})
+        try:
+            if pathkind == "odd_ext":
+                ctx.count("explicit_filetype_over_extension")
+                real.save(path, filetype="lmpdat", atom_format=style)
+            else:
+                real.save(path_arg(path, pathkind), atom_format=style)
+        finally:
+            fs.script = dict(fs.script, write={})
         handles = [h for h in fs.open_handles if h.path_ == path and h.mode_ != "r"]
         if handles and not handles[-1].closed_:
             raise Violation("%s:file-left-open" % prefix, "Atoms.save(path) returned normally but left %s open (pending %d characters)" % (path, len(handles[-1].pending)), site="save")
@@ -70,12 +85,17 @@ def save_lmpdat(ctx, fs, real, via, style, name, prefix, fault=None):
     return fs.files[path], path
 
 
-def load_lmpdat(ctx, fs, path, via, style, read_script=None):
+def load_lmpdat(ctx, fs, path, via, style, read_script=None, pathkind="std"):
     from mofun import Atoms
     if via == "path":
         fs.script = dict(fs.script, read=read_script or {})
-        a = Atoms.load(path, atom_format=style)
-        fs.script = dict(fs.script, read={})
+        try:
+            if not path.endswith(".lmpdat"):
+                a = Atoms.load(path_arg(path, pathkind), filetype="lmpdat", atom_format=style)
+            else:
+                a = Atoms.load(path_arg(path, pathkind), atom_format=style)
+        finally:
+            fs.script = dict(fs.script, read={})
         return a
     fh = fs.open(path, "r") if read_script is None else fs.reader(fs.files[path], name=path, script=read_script)
     if via == "file":
@@ -174,8 +194,33 @@ def check_file_against_model(text, model, style, prefix, where):
     return d
 
 
+def same_handle_roundtrip(ctx, fs, real, via_save, via_load, style, name, prefix):
+    """The caller's own "w+" stream: written by the real writer, rewound, read by the real reader - through ONE handle that the
+    caller opened and the caller closes.  Returns (durable text, path, reloaded)."""
+    from mofun import Atoms
+    path = "/sim/%s.lmpdat" % name
+    fh = fs.rw(path)
+    if via_save == "file":
+        real.save(fh, filetype="lmpdat", atom_format=style)
+    else:
+        real.save_lmpdat(fh, atom_format=style)
+    try:
+        fh.seek(0)
+    except ValueError as e:
+        raise Violation("%s:callers-stream-closed" % prefix, "writing to the caller's open read/write stream closed it: rewinding and reading it back fails (%s)" % e, site="save")
+    text = fs.files[path]
+    re = Atoms.load(fh, filetype="lmpdat", atom_format=style) if via_load == "file" else Atoms.load_lmpdat(fh, atom_format=style)
+    try:
+        fh.seek(0)
+    except ValueError as e:
+        raise Violation("%s:callers-stream-closed" % prefix, "reading from the caller's open stream closed it (%s)" % e, site="load")
+    fh.close()
+    ctx.count("same_handle_roundtrips")
+    return text, path, re
+
+
 def restart_lmpdat(ctx, fs, real, model, name, style="full", via_save="path", via_load="path", prefix="c09", read_script=None,
-                   idempotence=False):
+                   idempotence=False, pathkind="std", same_handle=False):
     """Full durable restart.  Returns (reloaded Atoms, its model)."""
     where = "restart lmpdat %s save:%s load:%s" % (style, via_save, via_load)
     if len(model.atoms) == 0:
@@ -183,16 +228,22 @@ def restart_lmpdat(ctx, fs, real, model, name, style="full", via_save="path", vi
     if not lmp_oriented(model.cell):
         ctx.count("restart_skipped_cell_not_lammps_oriented")
         return None, None
+    re = None
     try:
-        text, path = save_lmpdat(ctx, fs, real, via_save, style, name, prefix)
+        if same_handle and via_save != "path" and via_load != "path":
+            text, path, re = same_handle_roundtrip(ctx, fs, real, via_save, via_load, style, name, prefix)
+        else:
+            text, path = save_lmpdat(ctx, fs, real, via_save, style, name, prefix, pathkind=pathkind)
     except Violation:
         raise
     except Exception as e:
         raise Violation("raises:%s" % type(e).__name__, "saving a consistent non-empty structure as LAMMPS data: %s" % e, site="save_lmpdat")
     ctx.count("restarts")
+    ctx.last_restart_path = path
     prec = check_file_against_model(text, model, style, prefix, where)["prec"]
     try:
-        re = load_lmpdat(ctx, fs, path, via_load, style, read_script)
+        if re is None:
+            re = load_lmpdat(ctx, fs, path, via_load, style, read_script, pathkind=pathkind)
     except Exception as e:
         raise Violation("raises:%s" % type(e).__name__, "reading back the LAMMPS data file just written: %s" % e, site="load_lmpdat")
     proj = lmpdat_projection(model, style, rounded=False)
